@@ -475,7 +475,7 @@ Section E1S.
     forall ty q ent, In (ty, q, ent) (eo_got o4) -> independent ty = false ->
     exists cl tk' m',
       al_get slot (y_clients (e_sys e4)) = Some cl /\ deliverable cl m' = Some (ty, q, ent) /\ sm_tick m' = Some tk' /\
-      tk' <= cl_upd_tick cl /\ tk = last_tick (usent g2 slot) /\
+      In m' (held_all e3 slot) /\ tk' <= cl_upd_tick cl /\ tk = last_tick (usent g2 slot) /\
       (tk <= tk' -> is_prefix (usent g2 slot) (uapplied g4 slot)).
   Proof.
     intros stf stc g2 g4 full Hok Hb H1 Hsf H3 Hsc Hmf Hc2 Hne m tk Hin Htk ty q ent Hd Hdep.
@@ -493,8 +493,8 @@ Section E1S.
     assert (Hm4 : emode full slot = MLive).
     { unfold full, stc. rewrite (emode_snoc_one _ _ (StCFrame slot cops)) by reflexivity. rewrite Hm3. cbn [mode_step]. rewrite N.eqb_refl. reflexivity. }
     destruct (e1_delivery cfg0 nclients _ slot cops cemit e3 g3 _ e4 o4 Hok Hb H3' Hsc Hm4 ty q ent Hd Hdep)
-      as (cl & tk' & m' & Hcl & Hscl & Hm' & Etk' & _ & _ & Hle & Hupd & Hfifo & _).
-    exists cl, tk', m'. split; [exact Hcl|]. split; [exact Hm'|]. split; [exact Etk'|]. split; [exact Hle|]. split; [exact Etk|]. intros Hlt.
+      as (cl & tk' & m' & Hcl & Hscl & Hm' & Etk' & Hheld & _ & Hle & Hupd & Hfifo & _).
+    exists cl, tk', m'. split; [exact Hcl|]. split; [exact Hm'|]. split; [exact Etk'|]. split; [exact Hheld|]. split; [exact Hle|]. split; [exact Etk|]. intros Hlt.
     pose proof (urun_snoc cfg0 nclients _ _ _ _ _ _ _ H3' Hsc) as H4. fold stc g4 full in H4.
     pose proof (tinv_run cfg0 nclients _ _ _ _ Hok Hb H4) as [_ _ T3].
     destruct (T3 slot cl Hcl) as [_ I2]. specialize (I2 Hm4 Hscl). destruct I2 as [_ L2 L3 _ _ _].
